@@ -151,6 +151,17 @@ func (p *Program) VerifyFunc(fi *FuncInfo) (res *FuncResult) {
 	}
 	// entry state
 	e.prepareBody(fi.Pkg.TypesInfo, fi.Decl.Body)
+	e.keepVar = map[types.Object]bool{}
+	for _, cl := range append(append([]*Clause{}, c.Ensures...), c.Aux...) {
+		ast.Inspect(cl.Expr, func(n ast.Node) bool {
+			if id, ok := n.(*ast.Ident); ok {
+				if o, ok := p.CInfo.Uses[id].(*types.Var); ok && !o.IsField() && o.Pos() > fi.Decl.Body.Lbrace && o.Pos() < fi.Decl.Body.Rbrace {
+					e.keepVar[o] = true
+				}
+			}
+			return true
+		})
+	}
 	f := e.pushFrame(fi, fi.Pkg.TypesInfo)
 	alloc0 := Term{"alloc0", SInt}
 	e.Ctx.DeclareConst("alloc0", SInt)
@@ -188,6 +199,11 @@ func (p *Program) VerifyFunc(fi *FuncInfo) (res *FuncResult) {
 		}
 	}
 	e.bindSignature(st, f, fi.Decl, fi.Decl.Type, recv, args)
+	e.entryParams = map[types.Object]Term{}
+	for o, v := range st.Vars {
+		e.entryParams[o] = v
+	}
+	e.initCallHistory(st, fi)
 	e.old = st.Clone()
 	// requires
 	for _, r := range c.Requires {
@@ -195,10 +211,6 @@ func (p *Program) VerifyFunc(fi *FuncInfo) (res *FuncResult) {
 		e.assume(st, t)
 	}
 	e.old = st.Clone()
-	e.entryParams = map[types.Object]Term{}
-	for o, v := range st.Vars {
-		e.entryParams[o] = v
-	}
 	e.canary(st, "requires", fi.Decl.Pos())
 	// body
 	out := e.execBlock(st, fi.Decl.Body.List)
@@ -331,7 +343,7 @@ func (e *Exec) frameObligations(final *State, c *Contract, sc *clauseScope) {
 				whole = true
 			}
 		}
-		if whole || len(byKey["*"]) > 0 {
+		if whole || len(byKey["*"]) > 0 || e.P.Memo[k] != nil {
 			continue
 		}
 		now := e.heapGet(final, k)
@@ -387,4 +399,51 @@ func (e *Exec) addAxioms(res *FuncResult) {
 			e.Assumed["axiom ["+ax.Label+"] of package "+shortPkg(pp)+": "+ax.Src] = true
 		}
 	}
+}
+
+// initCallHistory creates the ghost call-history variables (__called / __lastret) for every callee name
+// that occurs in the body; they must exist from the start so that state merging keeps them.
+func (e *Exec) initCallHistory(st *State, fi *FuncInfo) {
+	e.calledObj = map[string]types.Object{}
+	e.lastRetObj = map[string][]types.Object{}
+	e.callAsserted = map[*CallAssert]bool{}
+	info := fi.Pkg.TypesInfo
+	ast.Inspect(fi.Decl.Body, func(n ast.Node) bool {
+		c, ok := n.(*ast.CallExpr)
+		if !ok {
+			return true
+		}
+		name := ""
+		switch f := c.Fun.(type) {
+		case *ast.Ident:
+			name = f.Name
+		case *ast.SelectorExpr:
+			name = f.Sel.Name
+		}
+		if name == "" || e.calledObj[name] != nil {
+			return true
+		}
+		if tv, ok := info.Types[c.Fun]; ok && tv.IsType() {
+			return true
+		}
+		o := e.newPseudo("called_"+name, types.Typ[types.Bool])
+		e.calledObj[name] = o
+		st.Vars[o] = False
+		if t := info.Types[c].Type; t != nil {
+			var ts []types.Type
+			if tup, ok := t.(*types.Tuple); ok {
+				for i := 0; i < tup.Len(); i++ {
+					ts = append(ts, tup.At(i).Type())
+				}
+			} else {
+				ts = []types.Type{t}
+			}
+			for i, rt := range ts {
+				ro := e.newPseudo(fmt.Sprintf("lastret_%s_%d", name, i), rt)
+				e.lastRetObj[name] = append(e.lastRetObj[name], ro)
+				st.Vars[ro] = e.S.Zero(e.S.SortOf(rt))
+			}
+		}
+		return true
+	})
 }
